@@ -3790,7 +3790,9 @@ class AllConnGraph(nx.DiGraph):
             arr = np.arange(shape_to_len(root_shape)).reshape(root_shape)
             for inds in src_inds_list:
                 arr = inds.indexed_val(arr)
-            return arr
+            # flat positions in the source, one per (flattened) input entry: the chain may end
+            # in an N-D or 0-d selection
+            return np.atleast_1d(arr).ravel()
 
     def convert_get(self, node, val, src_units, tgt_units, src_inds_list=(), units=None,
                     indices=None, get_remote=False):
